@@ -251,3 +251,25 @@ MANIFEST_TEXT["C09"] = {
     "technique": "stateful property-based testing (rapid), model-based invariant after every operation",
 }
 NOT_APPLICABLE[:] = [e for e in NOT_APPLICABLE if e["property_id"] not in CHECKS]
+
+CHECKS["C10"] = {
+    "test": "TestC10",
+    "quick": {"shards": 8, "checks": 700},
+    "thorough": {"shards": 16, "checks": 3000},
+    "rule": "rapid-generated sequences of block / undo / Verify(remember) of arbitrary live sets / serialize-and-restore steps on Pollard, a full MapPollard and a "
+            "partial MapPollard (generated TotalRows); after EVERY step every instance answers: GetLeafPosition and GetLeafHashPositions for every live "
+            "tracked leaf, every deleted leaf, every leaf of an undone branch, fresh values, every inner node hash, every root hash and the zero hash; "
+            "GetHash for every position in [0, 2^(rows+1)+8] plus {2^32, 2^32+1, 2^62, 2^63, 2^63+5, 2^64-2, 2^64-1}; tracked-leaf counts. Expected answers "
+            "come from the reference model (a partial forest must answer truthfully where it must store, may answer zero in the optional band, must answer "
+            "zero elsewhere). Non-trivial: a state with >=1 deletion probed with >=1 dead leaf, >=1 inner-node hash and >=1 non-existent position.",
+    "assumptions": COMMON_ASSUME + ["for a position beyond the last external position a map forest may answer with the node at that position of its own TotalRows layout (the repository's tests pass such coordinates) or with zero",
+                                    "a live leaf that a partial forest was never asked to remember on the surviving branch may or may not be known: not asserted"],
+}
+MANIFEST_TEXT["C10"] = {
+    "level_text": "Exploration: complete probe sets (all known hashes, all positions of the layout plus margin and far values) on generated reachable states, "
+                  "including after undo, Verify(remember) and restore.",
+    "design_ref": "DESIGN.md section 6 C10",
+    "level_note": TRUST,
+    "technique": "stateful property-based testing (rapid), model-based oracle over complete probe sets",
+}
+NOT_APPLICABLE[:] = [e for e in NOT_APPLICABLE if e["property_id"] not in CHECKS]
